@@ -18,7 +18,7 @@ RNG = ("rand", "random", "srand", "srandom", "drand48", "lrand48", "erand48", "r
 CLOCK = ("time", "clock", "clock_gettime", "gettimeofday", "getpid", "omp_get_wtime")
 # functions allowed to read the clock: stopwatch / log sinks whose values never flow back (void or status only)
 CLOCK_SINKS = {"esl_stopwatch_Start", "esl_stopwatch_Stop", "esl_stopwatch_Create", "esl_stopwatch_Display",
-               "stopwatch_getclocks", "get_time", "log_message", "warning", "error", "message", "write_msa_msf"}
+               "stopwatch_getclocks", "get_time", "log_message", "warning", "error", "message"}
 CONSUMERS = ("build_tree_kmeans", "create_msa_tree", "finalise_alignment")
 
 
@@ -34,23 +34,26 @@ def describe(ck):
 
 
 def r03a(ck, prog):
+    from ..lift import Lifted
     F = prog.fn("kalign_run")
-    cfg = F.cfg
-    sorts = [cfg.position(c) for c in F.body.calls("msa_sort_len_name")]
-    if not sorts:
+    L = Lifted(prog, CallGraph(prog))
+    if not L.sites(F, "msa_sort_len_name", "may"):
         ck.violation("R03a", "R03a/kalign_run/sort-missing", site(prog, F),
                      "kalign_run does not call msa_sort_len_name: anchors, distances and tree ties follow input order",
                      prog.config)
         return
     n = 0
     for name in CONSUMERS + ("convert_msa_to_internal", "alloc_tasks"):
-        for c in F.body.calls(name):
-            n += 1
-            where = site(prog, c, name)
-            ck.inst("R03a", where, "canonical sort dominates %s" % name, prog.config)
-            if cfg.reaches(None, cfg.position(c), avoid=sorts):
-                ck.violation("R03a", "R03a/kalign_run/%s" % name, where,
-                             "%s is reachable without the canonical sort having run" % name, prog.config)
+        sites_ = L.sites(F, name, "may")
+        if not sites_:
+            continue
+        n += len(sites_)
+        where = site(prog, sites_[0], name)
+        ck.inst("R03a", where, "canonical sort dominates %s" % name, prog.config)
+        why = L.precedes(F, "msa_sort_len_name", name)
+        if why:
+            ck.violation("R03a", "R03a/kalign_run/%s" % name, where,
+                         "%s is reachable without the canonical sort having run (%s)" % (name, why), prog.config)
     ck.floor("R03a", n, 4, "consumers")
 
 
@@ -147,36 +150,65 @@ def permuters(prog, cg):
 
 
 def r03e(ck, prog, cg):
+    from ..lift import Lifted
     F = prog.fn("kalign_run")
+    L = Lifted(prog, cg)
     perm = permuters(prog, cg)
     allowed = {"kalign_essential_input_check", "msa_sort_len_name", "msa_sort_rank"}
-    n = 0
-    for c in F.body.calls():
-        if not c.callee or c.callee not in cg.defined:
-            continue
-        reach = cg.reachable({c.callee})
-        hit = sorted(set(reach) & set(perm))
-        if not hit:
-            continue
-        n += 1
-        where = site(prog, c, c.callee)
-        ck.inst("R03e", where, "kalign_run -> %s reaches permuter(s) %s" % (c.callee, hit), prog.config)
-        if c.callee not in allowed:
+    count = [0]
+
+    def scan(G, depth=0):
+        for c in G.body.calls():
+            if not c.callee or c.callee not in cg.defined or c.callee == G.name:
+                continue
+            hit = sorted(set(cg.reachable({c.callee})) & set(perm))
+            if not hit:
+                continue
+            where = site(prog, c, c.callee)
+            if c.callee in allowed:
+                count[0] += 1
+                ck.inst("R03e", where, "%s -> %s reaches permuter(s) %s" % (G.name, c.callee, hit), prog.config)
+                continue
+            H = cg.defined[c.callee]
+            if H.static and H.file == F.file and depth < 3:
+                scan(H, depth + 1)          # a private helper of the pipeline: look inside
+                continue
+            count[0] += 1
+            ck.inst("R03e", where, "%s -> %s reaches permuter(s) %s" % (G.name, c.callee, hit), prog.config)
             ck.violation("R03e", "R03e/kalign_run/%s" % c.callee, where,
                          "%s (called between the sorts) reorders msa->sequences via %s (%s): the canonical order is "
-                         "lost before or after the computation" % (c.callee, hit[0], perm[hit[0]]), prog.config,
-                         path=cg.path_to(hit[0]) if hit[0] in getattr(cg, "_parent", {}) else [])
+                         "lost before or after the computation" % (c.callee, hit[0], perm[hit[0]]), prog.config)
+    scan(F)
     # nothing follows the rank sort that reaches a permuter
-    cfg = F.cfg
-    for c in F.body.calls("msa_sort_rank"):
+    for G, c in L.find_call(F, "msa_sort_rank"):
+        cfg = G.cfg
         pr = cfg.position(c)
-        for d in F.body.calls():
+        for d in G.body.calls():
             if d is c or not d.callee or d.callee not in cg.defined:
                 continue
             if set(cg.reachable({d.callee})) & set(perm) and cfg.reaches(pr, cfg.position(d)):
                 ck.violation("R03e", "R03e/kalign_run/after-rank-%s" % d.callee, site(prog, d),
                              "%s permutes sequences after the caller's order was restored" % d.callee, prog.config)
-    ck.floor("R03e", n, 3, "permuting calls in kalign_run")
+    ck.floor("R03e", count[0], 3, "permuting calls in kalign_run")
+
+
+def _clock_only_formatted(F, call):
+    """the value of a clock read flows only into date formatting: it is stored in a local whose only uses are
+    &local arguments of localtime / localtime_r / ctime / difftime / gmtime (a date line in a file header)"""
+    p, c = call.up(casts=True)
+    if p is None or not (p.k == "BinaryOperator" and p.d["op"] == "=" and p.kids[0].strip().k == "DeclRefExpr"):
+        return False
+    did = p.kids[0].strip().d["did"]
+    for r in F.body.refs(did=did):
+        if r.within(p.kids[0]):
+            continue
+        q, cc = r.up(casts=True)
+        if q is not None and q.k == "UnaryOperator" and q.d["op"] == "&":
+            q2, c2 = q.up(casts=True)
+            if q2 is not None and q2.k == "CallExpr" and q2.callee in ("localtime", "localtime_r", "ctime", "ctime_r", "gmtime", "gmtime_r", "difftime"):
+                continue
+        return False
+    return True
 
 
 def r03d(ck, prog, cg, roots=("kalign_run",), rule="R03d"):
@@ -198,7 +230,9 @@ def r03d(ck, prog, cg, roots=("kalign_run",), rule="R03d"):
                          "random source %s() is reachable from %s: %s" % (name, roots[0], " -> ".join(caller)),
                          prog.config, path=caller)
         for c in F.body.calls(*CLOCK):
-            if name in CLOCK_SINKS:
+            if name in CLOCK_SINKS or F.file.endswith(("esl_stopwatch.c", "tldevel.c")):
+                continue
+            if _clock_only_formatted(F, c):
                 continue
             ck.violation(rule, "%s/%s/%s" % (rule, name, c.callee), site(prog, c),
                          "%s reads %s() on a path reachable from %s and is not one of the log/stopwatch sinks" % (
@@ -223,10 +257,14 @@ def r03f(ck, prog, cg):
     """what is computed from the records before the canonical sort must not single out a prefix of the input:
     every loop over msa->sequences in the functions that run on the unsorted msa covers [0, numseq)"""
     from ..affine import loop_range, single_defs
+    from ..lift import Lifted
     K = prog.fn("kalign_run")
-    cfg = K.cfg
-    sorts = [cfg.position(c) for c in K.body.calls("msa_sort_len_name")]
-    pre = {c.callee for c in K.body.calls() if c.callee in cg.defined and any(cfg.reaches(cfg.position(c), s) for s in sorts)}
+    L = Lifted(prog, cg)
+    pre = set()
+    for G, c in L.find_call(K, "msa_sort_len_name"):
+        cfg = G.cfg
+        pre |= {x.callee for x in G.body.calls() if x.callee in cg.defined and x is not c and cfg.reaches(cfg.position(x), cfg.position(c))}
+    pre -= {"msa_sort_len_name"}
     # what the readers leave behind is also computed on the caller's order
     pre |= {"detect_alphabet", "detect_aligned", "set_sip_nsip", "merge_msa", "null_terminate_sequences"}
     n = 0
